@@ -15,7 +15,9 @@ RULE = ('exhaustive box: line width w in 1..5 x sequence length n in 0..11 x {LF
         'record in the file (only/first/middle/last, neighbours with other widths and empty sequences) x {binary, db} x '
         '{same object, reopened}, on each all ranges 0 <= i < j <= n+3 plus open ends, whole record and header queries through '
         'get / get_fasta / get_fastaheader (thorough: the whole box; quick: a seeded sample of it); random file sets (1-3 files, '
-        'w up to 200, n up to 5000, ranges biased to line breaks and the record end, separate add calls per file); a malformed '
+        'w up to 200, n up to 5000, ranges biased to line breaks and the record end, separate add calls per file in a random '
+        'registration order); a family with one add call per file in reverse / rotated order against the file names, both back ends, '
+        'same object and reopened, every record of every file queried; a malformed '
         'stream of raw files (compared for drift only); corpus = witnesses of F11-F13, F15, F16. '
         'non-trivial = distinct case whose queries cross a line break, are clipped, start beyond the end, hit an empty record, '
         'use CRLF or a file without final newline')
@@ -82,6 +84,12 @@ def expand_queries(case):
     return qs
 
 
+def order_of(case):
+    """registration order: positions of the files (file k is named f<k>.fasta) in the order add() sees them"""
+    o = case.get('order')
+    return list(range(len(case['files']))) if o is None else o
+
+
 def mode_of(case):
     return 'db' if case['db'] else 'binary'
 
@@ -139,8 +147,10 @@ def run_index(case, d):
             elif am == 1:
                 idx.add(list(reversed(paths)), silent=True)
             else:
-                for k, p in enumerate(paths):
-                    idx.add(p, silent=True, force=(k > 0 and mode == 'binary'))
+                # one add call per file, in the registration order of the case (file k is named f<k>.fasta, so any order
+                # other than 0,1,2 registers the files against the alphabetical order of their names)
+                for pos, k in enumerate(order_of(case)):
+                    idx.add(paths[k], silent=True, force=(pos > 0 and mode == 'binary'))
         except Exception as e:
             return [sums, canon_exc(e)]
         if case['reopen']:
@@ -214,7 +224,7 @@ def model_term(case):
     qs = coq_list([coq_query(q) for q in allq[:len(allq) - nbox]])
     if case.get('box'):
         qs = '(%s ++ box_queries %s %s)' % (qs, coq_bs(case['box']['id']), coq_natx(case['box']['m']))
-    return 'out (run_C09 %s %s %s %s %s)' % (coq_N(MODES[mode_of(case)]), coq_N(case.get('addmode', 0)), coq_bool(case['reopen']), coq_list([coq_file(f) for f in case['files']]), qs)
+    return 'out (run_C09 %s %s %s %s %s %s)' % (coq_N(MODES[mode_of(case)]), coq_N(case.get('addmode', 0)), coq_bool(case['reopen']), coq_list([coq_natx(k) for k in order_of(case)]), coq_list([coq_file(f) for f in case['files']]), qs)
 
 
 def split_model(case, m):
@@ -320,6 +330,8 @@ def _flags(case):
             fl.add('nofinal')
     if len(case['files']) > 1:
         fl.add('multifile')
+    if order_of(case) != sorted(order_of(case)):
+        fl.add('registered-against-name-order')
     for q in expand_queries(case):
         if q[1] not in recs:
             fl.add('unknown-id')
@@ -350,13 +362,14 @@ def _flags(case):
 
 def nontrivial(case, got):
     fl = _flags(case)
-    if fl and set(fl) & {'crosses-break', 'clipped', 'start-beyond-end', 'empty-record', 'crlf', 'nofinal'}:
+    if fl and set(fl) & {'crosses-break', 'clipped', 'start-beyond-end', 'empty-record', 'crlf', 'nofinal', 'registered-against-name-order'}:
         return fl
     return None
 
 
 def histkey(case, got):
-    ks = ['mode=' + mode_of(case), 'reopen=%s' % case['reopen'], 'files=%d' % len(case['files']), 'kind=' + case.get('_kind', '?'),
+    o = order_of(case)
+    ks = ['mode=' + mode_of(case), 'registration=' + ('name-order' if o == sorted(o) else 'reverse' if o == sorted(o, reverse=True) else 'other'), 'reopen=%s' % case['reopen'], 'files=%d' % len(case['files']), 'kind=' + case.get('_kind', '?'),
           'add=' + ['glob', 'list', 'one-call-per-file'][case.get('addmode', 0) % 3]]
     if isinstance(got, list) and isinstance(got[1], dict):
         ks.append('add-raises=' + got[1]['e'])
@@ -473,8 +486,30 @@ def rand_case(rng, big):
         qs.append(q)
     if rng.random() < 0.1:
         qs.append(Q(rng.choice([0, 1, 2]), 'nosuchid'))
-    return {'_kind': 'random', 'db': mode == 'db', 'reopen': rng.random() < 0.5,
-            'addmode': rng.choice([0, 0, 1, 2]) if len(files) > 1 else 0, 'files': files, 'queries': qs}
+    c = {'_kind': 'random', 'db': mode == 'db', 'reopen': rng.random() < 0.5,
+         'addmode': rng.choice([0, 1, 2, 2]) if len(files) > 1 else 0, 'files': files, 'queries': qs}
+    if c['addmode'] == 2:
+        o = list(range(len(files)))
+        rng.shuffle(o)
+        c['order'] = o
+    return c
+
+
+def regorder_case(rng, nfiles, order, db, reopen):
+    """files registered by one add call each in an order different from the order of their names; every record of every file
+    is queried (whole, range crossing a line break, clipped range, text), so a file-number mix-up cannot hide"""
+    files, qs = [], []
+    for k in range(nfiles):
+        recs = []
+        for t in range(rng.choice([1, 2])):
+            w = rng.choice([3, 4, 5, 7])
+            n = rng.choice([w + 1, 2 * w, 2 * w + 3, 11])
+            r = {'id': 'r%d_%d' % (k, t), 'desc': rng.choice(['', ' file %d' % k]), 'seq': _rand_seq(rng, n), 'w': w}
+            recs.append(r)
+            qs += [Q(0, r['id']), Q(0, r['id'], w - 1, w + 2), Q(0, r['id'], 2, n + 5), Q(1, r['id']), Q(2, r['id']),
+                   Q(1, r['id'], 1, None)]
+        files.append({'crlf': rng.random() < 0.3, 'final': rng.random() < 0.7, 'recs': recs})
+    return {'_kind': 'regorder', 'db': db, 'reopen': reopen, 'addmode': 2, 'order': list(order), 'files': files, 'queries': qs}
 
 
 def malformed_case(rng):
@@ -522,6 +557,15 @@ def gen_cases(rng, tier):
     if tier != 'thorough':
         box = rng.sample(box, 48)
     cases += [box_case(*b) for b in box]
+    # registration order against the order of the file names: reverse and rotated orders, one add call per file,
+    # both back ends, same object and reopened
+    import itertools
+    orders = [(1, 0), (2, 1, 0), (1, 2, 0), (2, 0, 1)] if tier != 'thorough' else \
+        [o for n in (2, 3) for o in itertools.permutations(range(n)) if list(o) != sorted(o)] * 6
+    for o in orders:
+        for db in (False, True):
+            for reopen in (False, True):
+                cases.append(regorder_case(rng, len(o), o, db, reopen))
     nrand, nmal = (6000, 600) if tier == 'thorough' else (260, 40)
     for k in range(nrand):
         cases.append(rand_case(rng, big=(k % 10 == 0)))
